@@ -2005,6 +2005,11 @@ class CompFamily:
                     tests = self.tests_of(trace)
                     if len(tests) != 1:
                         raise Infra(f"fault run {fault}/{name}: expected one test, got {len(tests)}")
+                    if spec.get("probe"):
+                        # the wrapper's fault cannot show in the wire trace of a test that happens not to exercise it: the
+                        # driver probes the wrapped server directly
+                        if json.loads(p.stdout.strip().splitlines()[-1]).get("probe_faulty"):
+                            seen_dev = True
                     if not tests[0][3]["pass"]:
                         break
                 total, mism = self.validate(ctx, trace, f"validate-{fault}-{j}")
